@@ -1,6 +1,7 @@
 package transport
 
 import (
+	"context"
 	"fmt"
 	"strings"
 	"testing"
@@ -29,13 +30,17 @@ type c02sys struct {
 	ctxDone  []bool // per call: context observed done (deadline fired)
 }
 
-func c02Scenario(name string, tcp bool, ncallers int, p int) vr.Scenario {
+func c02Scenario(name string, kind string, ncallers int, p int) vr.Scenario {
+	tcp := kind != "tdc-udp" && kind != "pipeline-udp"
 	var sys *c02sys
 	body := func() {
 		sys = &c02sys{tcp: tcp, ncallers: ncallers}
 		s := sys
-		a, b := fk.NewPipe("c0", !tcp)
 		nonce := uint32(100)
+		var a, b *fk.Conn
+		mk := func() {
+		a, b = fk.NewPipe("c0", !tcp)
+		a, b := a, b
 		closing := false
 		// server: answer query bytes qb (wire format as written by the client)
 		answer := func(qb []byte) {
@@ -87,7 +92,6 @@ func c02Scenario(name string, tcp bool, ncallers int, p int) vr.Scenario {
 			b.Deliver(wb)
 			return nil
 		}
-		dc := NewDnsConn(TraditionalDnsConnOpts{WithLengthHeader: tcp}, a)
 		vs.GoNamed("server", func() {
 			for {
 				qb, ok := b.Take()
@@ -100,6 +104,24 @@ func c02Scenario(name string, tcp bool, ncallers int, p int) vr.Scenario {
 				answer(qb)
 			}
 		})
+		}
+		var dc *TraditionalDnsConn
+		var tr interface {
+			ExchangeContext(ctx context.Context, m []byte) (*[]byte, error)
+			Close() error
+		}
+		switch kind {
+		case "tdc-tcp", "tdc-udp":
+			mk()
+			dc = NewDnsConn(TraditionalDnsConnOpts{WithLengthHeader: tcp}, a)
+		case "reuse":
+			tr = NewReuseConnTransport(ReuseConnOpts{DialContext: func(ctx context.Context) (NetConn, error) { mk(); return a, nil }})
+		case "pipeline-tcp", "pipeline-udp":
+			tr = NewPipelineTransport(PipelineOpts{DialContext: func(ctx context.Context) (DnsConn, error) {
+				mk()
+				return NewDnsConn(TraditionalDnsConnOpts{WithLengthHeader: tcp}, a), nil
+			}})
+		}
 		var wg vs.WaitGroup
 		s.ctxDone = make([]bool, ncallers)
 		for i := 0; i < ncallers; i++ {
@@ -110,13 +132,20 @@ func c02Scenario(name string, tcp bool, ncallers int, p int) vr.Scenario {
 				defer wg.Done()
 				ctx, cancel := vs.WithTimeout(bg, 3*time.Second)
 				defer cancel()
-				re, _ := dc.ReserveNewQuery()
-				if re == nil {
-					c.refused = true
-					return
+				var r *[]byte
+				var err error
+				if tr != nil {
+					c.started = true
+					r, err = tr.ExchangeContext(ctx, c.q)
+				} else {
+					re, _ := dc.ReserveNewQuery()
+					if re == nil {
+						c.refused = true
+						return
+					}
+					c.started = true
+					r, err = re.ExchangeReserved(ctx, c.q)
 				}
-				c.started = true
-				r, err := re.ExchangeReserved(ctx, c.q)
 				c.done, c.err, c.retAt = true, err, vs.Elapsed()
 				c.ctxDoneAtRet = ctx.Err() != nil
 				if r != nil {
@@ -125,8 +154,14 @@ func c02Scenario(name string, tcp bool, ncallers int, p int) vr.Scenario {
 			})
 		}
 		wg.Wait()
-		dc.Close()
-		b.Close()
+		if tr != nil {
+			tr.Close()
+		} else {
+			dc.Close()
+		}
+		if b != nil {
+			b.Close()
+		}
 	}
 	check := func(x *vs.Exec) (string, *vs.Violation) {
 		s := sys
@@ -175,8 +210,8 @@ func c02Scenario(name string, tcp bool, ncallers int, p int) vr.Scenario {
 		}
 		return strings.Join(key, ","), viol
 	}
-	return vr.Scenario{Name: name, P: p, Horizon: 20 * time.Second, Body: body, Check: check,
-		Params: map[string]any{"tcp": tcp, "callers": ncallers}}
+	return vr.Scenario{Name: name, P: p, D: p, Horizon: 20 * time.Second, Body: body, Check: check,
+		Params: map[string]any{"kind": kind, "callers": ncallers}}
 }
 
 func classify(err error) string {
@@ -192,15 +227,19 @@ func classify(err error) string {
 
 func TestVerifC02(t *testing.T) {
 	e := vr.GetEnv()
-	p1, p2 := 2, 2
+	p1, p2, pp1, pp2 := 3, 2, 2, 1
 	if e.Tier == "thorough" {
-		p1, p2 = 4, 3
+		p1, p2, pp1, pp2 = 4, 3, 3, 2
 	}
 	scs := []vr.Scenario{
-		c02Scenario("tdc-tcp-1", true, 1, p1),
-		c02Scenario("tdc-udp-1", false, 1, p1),
-		c02Scenario("tdc-tcp-2", true, 2, p2),
-		c02Scenario("tdc-udp-2", false, 2, p2),
+		c02Scenario("tdc-tcp-1", "tdc-tcp", 1, p1),
+		c02Scenario("tdc-udp-1", "tdc-udp", 1, p1),
+		c02Scenario("reuse-1", "reuse", 1, p1),
+		c02Scenario("pipeline-tcp-1", "pipeline-tcp", 1, pp1),
+		c02Scenario("pipeline-udp-1", "pipeline-udp", 1, pp1),
+		c02Scenario("tdc-tcp-2", "tdc-tcp", 2, p2),
+		c02Scenario("tdc-udp-2", "tdc-udp", 2, p2),
+		c02Scenario("pipeline-tcp-2", "pipeline-tcp", 2, pp2),
 	}
 	vr.RunScenarios("C02", scs)
 }
